@@ -51,6 +51,16 @@ DESC = {
  'b4-C17': '`MonthIter` rebuilt on two counters that may cross',
  'b4-C19': 'CLI: digit-cluster branch uses `v.string()?` — non-Unicode error raised before a later `-h`',
  'b4-C20': 'CLI `Options::run`: comma / bracket patching by argument count (breaks `-J` with no argument)',
+ 'b5-C01': '`ymdo2ordinal`: early return when the shape of a month *before* the target is absent (skipped months no longer count as zero days)',
+ 'b5-C04': '`get_day_ordinal`: fast path `Ok(day)` for days 1–28 in years more than one away from the last Julian year',
+ 'b5-C07': '`day_ordinal_err`, `Tailless`: lower bound of the "skipped" range dropped, day 0 reported as skipped',
+ 'b5-C09': '`MonthShape::day_ordinal` reimplemented; `Gapped`: `day > gap_len` where `day > gap_end` is meant',
+ 'b5-C10': '`Date::pred`: year decremented first, `prev_year_before` called only on an empty year (steps over one skipped year only)',
+ 'b5-C11': '`Ord for inner::Calendar` by `(post_reform.year, post_reform.ordinal)` (same idea as b4-C11, found independently)',
+ 'b5-C12': '`GapKind::for_dates` flattened: same month name ⇒ `IntraMonth` even across years; `reforming` then underflows',
+ 'b5-C14': '`system2jdn`, before 1970: `-(as_secs_f64().ceil() as i64)` — sub-µs fractions rounded away far from the epoch',
+ 'b5-C15': '`FromStr for Weekday` through a 9-byte lower-casing buffer: longer input silently truncated (`Wednesdays`)',
+ 'b5-C16': '`TryFrom<Date> for NaiveDate`, Old Style dates via `chrono::Days` (`u64`): negative day numbers refused',
 }
 def prop_table():
     rows = []
